@@ -4,6 +4,8 @@ mod common;
 mod comp;
 mod gen;
 mod lockstep;
+mod pool;
+mod stress;
 mod sut;
 
 use common::*;
@@ -24,6 +26,9 @@ fn main() {
         std::process::exit(2);
     }
     match args[1].as_str() {
+        "worker" => {
+            std::process::exit(stress::worker_main());
+        }
         "selftest" => {
             println!("clock interposition ok; item_size = {}", gen::item_size());
         }
@@ -64,6 +69,24 @@ fn run_check(id: &str, tier: &str) -> i32 {
         }
         outs.push(checks::run_comp_part(id, &part, tier, seed, &stats));
         engines.push(format!("component E4 ({})", part.engine));
+    }
+    let known = checks::known_findings(id);
+    let mut known_hit: Vec<String> = Vec::new();
+    let sparts = checks::stress_parts(id);
+    for part in sparts.iter() {
+        if failed(&outs) {
+            break;
+        }
+        outs.push(checks::run_stress_part(id, part, tier, seed, &stats, &known, &mut known_hit));
+        engines.push(format!("stress E3 ({:?}, {}% async executors)", part.kind, part.async_pct));
+    }
+    if !sparts.is_empty() {
+        let (r, a) = checks::stress_rule(id);
+        rules.push(r.to_string());
+        assumptions.extend(a.iter().map(|s| s.to_string()));
+    }
+    for l in known_hit.iter() {
+        println!("{}", l);
     }
     let (r, a) = checks::comp_rule(id);
     if !r.is_empty() {
@@ -130,6 +153,17 @@ fn run_replay(id: &str, file: &str) -> i32 {
                 for f in &fails {
                     println!("counterexample: {}", f);
                 }
+                println!("VIOLATION property={} replay={}", id, file);
+                1
+            }
+        }
+        "stress" => {
+            let (fails, runs) = checks::replay_stress(id, &v["case"]);
+            if fails.is_empty() {
+                println!("replay: property {} held in {} re-runs of these scripts (the OS schedule is not reproducible)", id, runs);
+                0
+            } else {
+                println!("counterexample ({} of {} re-runs): {}", fails.len(), runs, fails[0]);
                 println!("VIOLATION property={} replay={}", id, file);
                 1
             }
